@@ -23,6 +23,10 @@ impl AbstractInstructionSet {
         data_section: &DataSection,
         level: OptLevel,
     ) -> AbstractInstructionSet {
+        #[cfg(fuellabs_sway_verif)]
+        if crate::verif::skip_asm_opt() {
+            return self;
+        }
         match level {
             // On debug builds do a single pass through the simple optimizations
             OptLevel::Opt0 => self
